@@ -242,7 +242,7 @@ func famOf(s string) string {
 func main() {
 	ev.Main("C06", "exploration", func(r *ev.Run) {
 		r.Rule("the harness owns the root CA and the RSA device keys, so sig = EM^d mod N yields a signature that decrypts to ANY chosen encoded message EM. Per device key size and per (hash in SHA1/256/384/512) x (DigestInfo with/without NULL): the correct EM (must be accepted); EM with each byte position replaced by 3 other values; padding shortened by 1..8 with the tail shifted left (trailing garbage) or right (leading zeros); DigestInfo of another hash; single-bit flips of signature and body; all SignatureAlgorithm labels; device certificate issued by root / other CA / self-signed / expired / not yet valid / ECDSA key. distinct_nontrivial = distinct (family, key size, position, signature) cases whose outcome matched the oracle")
-		r.Assume("reference EM built from RFC 8017 9.2 and cross-checked against crypto/rsa.VerifyPKCS1v15 for the with-NULL form", "chain validity uses the real clock with ±24h margins", "labels DSAWith*/ECDSAWith* over an RSA key are don't-care")
+		r.Assume("reference EM built from RFC 8017 9.2 and cross-checked against crypto/rsa.VerifyPKCS1v15 for the with-NULL form", "chain validity uses the real clock with ±24h margins; the two certificates whose validity changes during the run lapse / begin 2..3 s after the attestors were built and are looked at within the first second and again 1.2 s after the boundary", "labels DSAWith*/ECDSAWith* over an RSA key are don't-care")
 		if r.Replay != nil {
 			replay(r)
 			return
@@ -313,6 +313,48 @@ func main() {
 			d.f9, d.f9DER = p.issue(&d.priv.PublicKey, p.root, p.rootKey, now.Add(-48*time.Hour), now.Add(4800*time.Hour))
 		}
 		r.Extra("device_key_bits", sizes)
+		// the attestors live on while time passes: a device certificate that lapses (or becomes valid) after they were
+		// built is judged at the time of the attestation, not of the construction. First look now, second look at the end.
+		lapse := now.Add(3 * time.Second)
+		d0 := keys[0]
+		soonExpired, _ := p.issue(&d0.priv.PublicKey, p.root, p.rootKey, now.Add(-time.Hour), lapse)
+		soonValid, _ := p.issue(&d0.priv.PublicKey, p.root, p.rootKey, lapse, now.Add(4800*time.Hour))
+		lateTBS := gen.Bytes(r.CaseAlways("late", 0).Rand, 300)
+		lateDigest := hashes[1].sum(lateTBS)
+		lateSig := d0.signRaw(em(d0.k, append(append([]byte{}, hashes[1].prefix(true)...), lateDigest...)))
+		lateLook := func(when string, wantExpired, wantValid bool) {
+			for ai, att := range []*yubiattest.Attestor{p.attestor, fileAtt} {
+				if att == nil {
+					continue
+				}
+				for _, x := range []struct {
+					name string
+					f9   *x509.Certificate
+					want bool
+				}{{"device-cert-lapsing-after-construction", soonExpired, wantExpired}, {"device-cert-becoming-valid-after-construction", soonValid, wantValid}} {
+					c := r.CaseAlways("late", ai)
+					r.Eval(1)
+					attest := &x509.Certificate{SignatureAlgorithm: x509.SignatureAlgorithm(hashes[1].alg), RawTBSCertificate: lateTBS, Signature: lateSig}
+					var err error
+					if r.Guard(c, "Attest", x.name, func() { err = att.Attest(x.f9, attest) }) {
+						continue
+					}
+					if (err == nil) != x.want {
+						sig := "accepts-invalid:"
+						if x.want {
+							sig = "rejects-valid:"
+						}
+						r.Violation(c, sig+x.name+":"+when, fmt.Sprintf("attestor built at %s, device certificate valid %s .. %s, attested at %s: err=%v", now.Format(time.RFC3339), x.f9.NotBefore.Format(time.RFC3339), x.f9.NotAfter.Format(time.RFC3339), time.Now().Format(time.RFC3339), err), nil)
+						continue
+					}
+					r.Count("device certificates whose validity changes after the attestor was built: judged "+when, 1)
+					r.Nontrivial("late:" + x.name + ":" + when + fmt.Sprint(ai))
+				}
+			}
+		}
+		if time.Since(now) < time.Second {
+			lateLook("before", true, false)
+		}
 
 		type job func()
 		jobs := make(chan job, 1024)
@@ -547,6 +589,10 @@ func main() {
 		}
 		close(jobs)
 		wk.Wait()
+		if d := time.Until(lapse.Add(1200 * time.Millisecond)); d > 0 {
+			time.Sleep(d)
+		}
+		lateLook("after", false, true)
 		r.Extra("keys_with_sampled_padding_positions", sampled)
 		r.Sample(map[string]any{"family": "byte-replaced", "note": "EM = 00 01 FF..FF 00 DigestInfo digest with one byte XORed; signature = EM^d mod N; expected: reject"})
 		r.Sample(map[string]any{"family": "correct", "hashes": []string{"SHA1", "SHA256", "SHA384", "SHA512"}, "forms": []string{"with NULL", "without NULL"}, "expected": "accept"})
